@@ -214,13 +214,16 @@ def run(ctx):
     interp = MiniInterp(ctx.ce, it.module, expr_hook=expr_hook)
     tab_attr = start_table_with_attributes(ctx)
     omitted_with_attrs = sorted({k[0] for k, v in tab_attr.items() if v}) if tab_attr is not None else None
-    for ty in TOKEN_TYPES:
-        for data in ({}, {(None, "a"): "b"}):
-            for os_ in (True, False):
-                for oe in (True, False):
+    NS = {"html": "http://www.w3.org/1999/xhtml", "none": None, "svg": "http://www.w3.org/2000/svg",
+          "mathml": "http://www.w3.org/1998/Math/MathML"}
+    for ty, data, os_, oe, nsk in [(a, b, c, d, e) for a in TOKEN_TYPES for b in ({}, {(None, "a"): "b"}) for c in (True, False)
+                                   for d in (True, False) for e in (("html", "none", "svg", "mathml") if a in ("StartTag", "EndTag") else ("html",))]:
+        if True:
+            if True:
+                if True:
                     if data and os_ and omitted_with_attrs == []:
                         continue        # the predicate is told about the attributes and never approves a tag that has some
-                    tok = {"type": ty, "name": "x", "data": data}
+                    tok = {"type": ty, "name": "x", "data": data, "namespace": NS[nsk]}
                     env = {tok_name: tok, pv_name: None, nx_name: None, "self": Opaque("self"),
                            "__is_optional_start": os_, "__is_optional_end": oe}
                     out = interp.run(loop.body, env)
@@ -228,9 +231,15 @@ def run(ctx):
                     others = [e for e in out.effects if e not in ys]
                     if others:
                         raise AnalysisError("Filter.__iter__ has effects other than yield: %s" % others[:2])
-                    may_drop = (ty == "StartTag" and not data and os_) or (ty == "EndTag" and oe)
-                    key = "type=%s attrs=%s optstart=%s optend=%s" % (ty, bool(data), os_, oe)
-                    if len(ys) == 0:
+                    foreign = nsk in ("svg", "mathml")
+                    may_drop = ((ty == "StartTag" and not data and os_) or (ty == "EndTag" and oe)) and not foreign
+                    key = "type=%s attrs=%s optstart=%s optend=%s" % (ty, bool(data), os_, oe) + ("" if nsk == "html" else " ns=%s" % nsk)
+                    if len(ys) == 0 and foreign and ((ty == "StartTag" and not data and os_) or (ty == "EndTag" and oe)):
+                        r.bad("R13.3", key, it.where,
+                              "a %s token of an element in the %s namespace is dropped because its *name* is one whose tag HTML lets one omit: no "
+                              "tag of a foreign element may be omitted -- `<svg><td>a</td><td>b</td></svg>` is written `<svg><td>a<td>b</svg>` "
+                              "and the second td is read back inside the first" % (ty, nsk), {"namespace": nsk})
+                    elif len(ys) == 0:
                         r.check("R13.3", may_drop, key, it.where,
                                 "a %s token (attributes: %s) is dropped although it is not an approved attribute-less "
                                 "start tag / end tag%s" % (ty, bool(data), (" (start tags approved in spite of attributes: %s)" %
@@ -395,6 +404,8 @@ def check_slider(ctx, tok_name):
 def mutants():
     from ..selftest import TextMutant as T
     return [
+        T("foreign-tags-omitted", "filters/optionaltags.py", "                    token.get(\"namespace\") not in (None, namespaces[\"html\"])):", "                    False):", "R13.3"),
+        T("foreign-end-tags-omitted", "filters/optionaltags.py", "            if (type in (\"StartTag\", \"EndTag\") and\n                    token.get(", "            if (type in (\"StartTag\",) and\n                    token.get(", "R13.3"),
         T("html-substring", "filters/optionaltags.py", "if tagname == 'html':", "if tagname in 'html':", "R13.1"),
         T("extra-end-name", "filters/optionaltags.py", "elif tagname in ('td', 'th'):", "elif tagname in ('td', 'th', 'caption'):", "R13.1"),
         T("drop-with-attrs", "filters/optionaltags.py",
